@@ -314,6 +314,16 @@ def main(argv):
             rng = vsim.Rng(seed, "c10", i)
             plan, hist, meta = gen_history(rng, tier)
             cases.append({"i": i, "variant": "comp" if i % 2 == 0 else "rts", "plan": plan, "hist": hist, "meta": meta})
+        # boundary sweep: every request size up to just past the fixed/mixed boundary, and
+        # every mixed quantum boundary up to 16 KB, as the FIRST allocation of its class
+        # in a pristine allocator (exhaustive over that small family)
+        sweep = list(range(1, 300)) + [256 * m - 32 + d for m in range(2, 65) for d in (-1, 0, 1)]
+        for j, sz in enumerate(sweep):
+            h = ["cfg seed %d" % sz, "a %d 0 e" % sz, "a %d 3 i" % sz, "r 0 %d" % (sz + 1), "a %d 0 d" % sz, "g",
+                 "f 0", "a %d 0 e" % sz, "r 1 %d" % max(1, sz - 1), "u"]
+            cases.append({"i": len(cases), "variant": "comp" if j % 2 == 0 else "rts",
+                          "plan": ["heapbase 200000000000", "sbrk cap %d" % (256 << 20)], "hist": h,
+                          "meta": {"n": len(h), "sweep": sz, "faulty": False, "forced": False, "ops": []}})
         # regression corpus: minimised histories of defects found earlier (fixed in /repo)
         import glob, json as _json
         for j, f in enumerate(sorted(glob.glob(os.path.join(vsim.VERIF, "findings", "C10-*", "*.json")))):
